@@ -36,7 +36,7 @@ def required_cells(tier):
     for v in ("L/other-point", "L/direction-scaled", "L/direction-negated", "L/two-point-form", "PL/other-point",
               "PL/normal-scaled", "PL/normal-negated", "PL/three-point-form", "PL/two-vector-form", "S/swapped",
               "S/point-vector-form", "H/direction-scaled", "H/two-point-form", "PG/rotated", "PG/reflected", "PG/duplicates",
-              "PG/shuffled", "PH/face-order", "PH/face-orientation", "any/numeric-type", "any/move-and-back"):
+              "PG/shuffled", "PH/face-order", "PH/face-orientation", "any/numeric-type", "any/move-and-back", "any/used-then-moved-into-place"):
         req["variant:" + v] = 15 if q else 300
     req["foreign-type"] = 100
     req["near-miss:coordinate -1 vs -2"] = 50
@@ -107,7 +107,12 @@ def _variant(G, d, r):
         if nt == "int" and not _integral(d):
             nt = "Fraction"
         return "any/numeric-type", lift(d, None, NT[nt])
-    if ch < 0.22 and k != "VEC":
+    if ch < 0.17 and k not in ("VEC",):
+        # built elsewhere, used there (hashed, compared, queried), then moved into place
+        h = C.make_hist(r, d)
+        h["touch"] = True
+        return "any/used-then-moved-into-place", C.lift_via_history(d, h, r)
+    if ch < 0.24 and k != "VEC":
         o = lift(d, None)
         v = tuple(F(r.randint(-6, 6), r.choice((1, 2, 4))) for _ in range(3))
         o.move(_V(G, v))
